@@ -6,9 +6,9 @@ package main
 // Emitter.PC() recorded before the corresponding call, the first bus access of the step must be the opcode
 // fetch at that address, and after the last instruction M / X must equal not IsM16bit / not IsX16bit; an
 // immediate method must panic exactly when its operand size disagrees with the tracked width.
-// A program may contain the emitter's conditional-branch methods (rel8 and label-taking forms): a pilot CPU is stepped
-// while the program is being assembled, and a branch is only emitted when its condition is false in the pilot's
-// current flags (own statement of the conditions, cplCond) -- such a branch is straight-line in the property's sense.
+// A program may contain the emitter's conditional-branch methods (rel8 and label-taking forms): a pilot of each
+// interpreter is stepped while the program is being assembled, and a branch is only emitted when its condition is false
+// in the current flags of both pilots (own statement of the conditions, cplCond) -- such a branch is straight-line in the property's sense.
 // Half of the programs are run on the bytes as patched by Finalize (label operands resolved or not), the other half
 // on the placeholders: a branch that is not taken must not care.
 // Tie: every program is also printed (calls, arguments, PC() before each call, refusals, final flags,
@@ -25,6 +25,7 @@ import (
 
 	"github.com/alttpo/snes/asm"
 	"github.com/alttpo/snes/emulator/cpu65c816"
+	"github.com/alttpo/snes/emulator/cpualt"
 )
 
 // conditional branches: which flag, and the value of it under which the branch is TAKEN (WDC instruction set)
@@ -214,16 +215,30 @@ type cplProg struct {
 	nBranch int
 }
 
-// the pilot: a cpu65c816 stepped over the program while it is being assembled; its flags decide which
-// conditional branches may be emitted (those whose condition is false)
+// the pilots: one instance of each interpreter stepped over the program while it is being assembled; their flags
+// decide which conditional branches may be emitted (those whose condition is false on both)
 type cplPilot struct {
-	r      *run65
-	none   byte
-	regs   cplRegs
-	mseed  uint32
-	alive  bool
-	loaded int
-	base   uint32
+	r       *run65
+	ra      *runAlt
+	none    byte
+	noneAlt byte
+	regs    cplRegs
+	mseed   uint32
+	alive   bool
+	loaded  int
+	base    uint32
+}
+
+func cplSetAlt(c *cpualt.CPU, base uint32, m0, x0 byte, regs cplRegs, none byte) {
+	c.RK, c.PC = byte(base>>16), uint16(base)
+	c.M, c.X, c.E, c.Interrupt = m0, x0, 0, none
+	c.RA, c.RX, c.RY, c.SP, c.RD, c.RDBR = regs.ra, regs.rx, regs.ry, regs.sp, regs.rd, regs.dbr
+	c.RAl, c.RAh, c.RXl, c.RYl = byte(regs.ra), byte(regs.ra>>8), byte(regs.rx), byte(regs.ry)
+	if x0 == 1 {
+		c.RX, c.RY = c.RX&0xFF, c.RY&0xFF
+	}
+	c.C, c.Z, c.I, c.D, c.V, c.N = regs.c, regs.z, regs.i, regs.d, regs.v, regs.n
+	c.Stopped, c.OnWDM, c.OnPC = false, nil, nil
 }
 
 func cplSet65(c *cpu65c816.CPU, base uint32, m0, x0 byte, regs cplRegs, none byte) {
@@ -242,8 +257,12 @@ func (pl *cplPilot) start(base uint32, m0, x0 byte) {
 	pl.r.mem.seed = pl.mseed
 	pl.r.mem.ov = map[uint32]byte{}
 	pl.r.mem.trace = nil
+	pl.ra.mem.seed = pl.mseed
+	pl.ra.mem.ov = map[uint32]byte{}
+	pl.ra.mem.trace = nil
 	pl.base, pl.loaded, pl.alive = base, 0, true
 	cplSet65(pl.r.cpu, base, m0, x0, pl.regs, pl.none)
+	cplSetAlt(pl.ra.cpu, base, m0, x0, pl.regs, pl.noneAlt)
 }
 
 // step: load what the assembler appended since the last call, execute one instruction
@@ -253,6 +272,7 @@ func (pl *cplPilot) step(code []byte) {
 	}
 	for ; pl.loaded < len(code); pl.loaded++ {
 		pl.r.mem.ov[pl.base+uint32(pl.loaded)] = code[pl.loaded]
+		pl.ra.mem.ov[pl.base+uint32(pl.loaded)] = code[pl.loaded]
 	}
 	defer func() {
 		if e := recover(); e != nil {
@@ -260,25 +280,27 @@ func (pl *cplPilot) step(code []byte) {
 		}
 	}()
 	pl.r.mem.trace = pl.r.mem.trace[:0]
+	pl.ra.mem.trace = pl.ra.mem.trace[:0]
 	pl.r.cpu.Step()
+	pl.ra.cpu.Step()
 }
 
 // notTaken: would this conditional branch fall through in the pilot's current state?
 func (pl *cplPilot) notTaken(mn string) bool {
-	c := pl.r.cpu
+	c, ca := pl.r.cpu, pl.ra.cpu
 	cd := cplCond[mn]
-	var f byte
+	var f, fa byte
 	switch cd.flag {
 	case 'n':
-		f = c.N
+		f, fa = c.N, ca.N
 	case 'v':
-		f = c.V
+		f, fa = c.V, ca.V
 	case 'c':
-		f = c.C
+		f, fa = c.C, ca.C
 	case 'z':
-		f = c.Z
+		f, fa = c.Z, ca.Z
 	}
-	return f != cd.taken
+	return f != cd.taken && fa != cd.taken
 }
 
 // cplGen assembles one random straight-line program with the real Emitter
@@ -621,7 +643,7 @@ func cplCmd(args []string) int {
 	ralt.cpu.Step()
 	noneAlt := ralt.cpu.Interrupt
 	methodHits := map[string]int{}
-	pilot := &cplPilot{r: newRun65(), none: none65}
+	pilot := &cplPilot{r: newRun65(), ra: newRunAlt(), none: none65, noneAlt: noneAlt}
 	for id := 0; id < *nprog; id++ {
 		r := &cpuRng{s: *seed*1000003 + uint64(id)*7919 + 17}
 		// the CPU's initial registers and the memory content are drawn first: the pilot needs them while assembling
@@ -711,15 +733,7 @@ func cplCmd(args []string) int {
 		{
 			cplLoad(ralt.mem, p, code, mseed)
 			c := ralt.cpu
-			c.RK, c.PC = byte(p.base>>16), uint16(p.base)
-			c.M, c.X, c.E, c.Interrupt = p.m0, p.x0, 0, noneAlt
-			c.RA, c.RX, c.RY, c.SP, c.RD, c.RDBR = regs.ra, regs.rx, regs.ry, regs.sp, regs.rd, regs.dbr
-			c.RAl, c.RAh, c.RXl, c.RYl = byte(regs.ra), byte(regs.ra>>8), byte(regs.rx), byte(regs.ry)
-			if p.x0 == 1 {
-				c.RX, c.RY = c.RX&0xFF, c.RY&0xFF
-			}
-			c.C, c.Z, c.I, c.D, c.V, c.N = regs.c, regs.z, regs.i, regs.d, regs.v, regs.n
-			c.Stopped, c.OnWDM, c.OnPC = false, nil, nil
+			cplSetAlt(c, p.base, p.m0, p.x0, regs, noneAlt)
 			o := cplCheckRun(p, ralt.mem, func() (pan bool, msg string) {
 				defer func() {
 					if e := recover(); e != nil {
